@@ -98,6 +98,13 @@ CHECKS = {
         technique="Lean 4 theorems over regenerated definitions (translator) and a hand-written geometry model + Float/rational correspondence",
         ref="DESIGN.md §5 C03",
     ),
+    "C13": dict(
+        category="proof",
+        text="Theorems over the reals about the loops of PerturbedDroplet2D/3D/3DAxisSym as REGENERATED from the source on every run (the translator preserves '=' vs '+=', the 'if a != 0' guards and the powers of the radius), with the harmonics as an arbitrary table: interface distance = R(1 + sum a_k B_k); 2-D curvature = 1/(R(1 - sum (n^2-1)(...))); 3-D/axisymmetric curvature = 1/R + (1/R) sum a_k (l^2+l-2)/2 Y_k with ALL modes contributing; curvature scales like 1/R and distance like R for any radius and mode combination; 2-D volume = pi R^2 (1 + sum a^2/2) with setter/getter round trip; volume_approx = sphere volume (no first-order term); with all amplitudes zero every quantity reduces to the sphere's; mode indexing (l,m)<->k round trips for all k. The geometric meaning of the linearised specification is validated numerically (exact planar curvature, finite-difference mean curvature of the level set, spectral quadrature of volume and arc length; 'to first order' = the discrepancy drops >6.6x when amplitudes shrink 4x); outline and triangulation vertices are checked on the implementation. Exposed D7/D8 (curvature), D9 (volume_approx) and D15 (scalar call with zero amplitudes), all fixed in /repo.",
+        note="Trusted: Lean kernel; propext/Classical.choice/Quot.sound; the translator (monitored by the Float correspondence at 1e-12); scipy's sph_harm_y through the library wrappers; the first-order expansion of mean curvature/volume of r = R(1+eps u) (classical; Mathlib has no spherical harmonics) is validated numerically only; the 256-point surface_area rule and dblquad volume are compared with independent quadrature.",
+        technique="Lean 4 theorems over regenerated definitions (translator) + Float correspondence + numerical validation of the specification",
+        ref="DESIGN.md §5 C13",
+    ),
 }
 
 NOT_APPLICABLE = {}
